@@ -321,7 +321,8 @@ pub fn mul<E>(a: &[E], b: &[E]) -> Vec<E>
 where
     E: FieldElement,
 {
-    let result_len = a.len() + b.len() - 1;
+    // the product of two empty (zero) polynomials is the empty (zero) polynomial
+    let result_len = (a.len() + b.len()).saturating_sub(1);
     let mut result = vec![E::ZERO; result_len];
     for i in 0..a.len() {
         for j in 0..b.len() {
